@@ -338,6 +338,35 @@ func p1Judge(r *core.R, e *p1env, vols map[int][]byte, d p1Damage, rng *rand.Ran
 	if rerr == nil && len(wrong) > 0 {
 		r.Violate("repair-nil-but-files-differ", "%s: Repair returned nil (repaired %v) but %v differ", desc, rr.RepairedPaths, wrong)
 	}
+	if rerr == nil && len(wrong) == 0 && len(d.lostVols) > 0 {
+		// The state Repair left behind: a parity volume is usable iff it is
+		// present and intact, whoever wrote it.
+		intact := 0
+		var altered []int
+		for v := 1; v <= e.nv; v++ {
+			b, err := os.ReadFile(e.volPath(v))
+			if err != nil {
+				continue
+			}
+			if string(b) == string(vols[v]) {
+				intact++
+			} else {
+				altered = append(altered, v)
+			}
+		}
+		var vr2 par1.VerifyResult
+		var verr2 error
+		if pi := core.Protect(func() { vr2, verr2 = par1.Verify(e.idx, par1.VerifyOptions{VerifyAllData: true}) }); pi != nil {
+			r.Violate(core.CrashSig("par1.Verify", pi.Frame, pi.Msg), "%s: Verify after Repair panicked: %s", desc, pi.Msg)
+		} else if verr2 == nil {
+			if vr2.FileCounts.UsableParityFileCount != intact || vr2.FileCounts.UnusableDataFileCount != 0 {
+				r.Violate("counts-wrong-after-repair", "%s: after a successful Repair Verify counts %d usable parity volumes and %d unusable data files; %d volume files are present with their original bytes (present but different: %v)", desc, vr2.FileCounts.UsableParityFileCount, vr2.FileCounts.UnusableDataFileCount, intact, altered)
+			}
+		} else if len(altered) == 0 {
+			r.Violate("verify-error-after-repair", "%s: Verify after a successful Repair: %v", desc, verr2)
+		}
+		r.Count("verifies_after_repair", 1)
+	}
 	if len(missing) <= len(avail) {
 		sing := len(missing) > 0 && par1rw.ForcedSingular(missing, avail[:len(missing)])
 		if sing {
